@@ -170,10 +170,14 @@ def _run_clf(case):
 
 
 def strategies(tier):
-    return [_stream_case(), _clf_case()]
+    from . import ma_extra
+    return [ma_extra.repro_strategy(), _stream_case(), _clf_case()]
 
 
 def run_case(case):
+    if case["kind"] == "ma_repro":
+        from . import ma_extra
+        return ma_extra.run_case(case)
     if case["kind"] == "stream":
         return _run_stream(case)
     return _run_clf(case)
